@@ -135,6 +135,9 @@ def generate(st):
             for _ in ops[src]['versions']:
                 stamps.append(now)
                 n_pub += 1
+        elif r < 0.71 and cfg['faulty'] and n_pub:
+            # fault: a malformed version (its stamp column holds text); the merge raises, the caller keeps the old store
+            ops.append({'op': 'bad_merge', 'vals': version()})
         elif r < 0.75 and cfg['faulty'] and n_pub:
             ops.append({'op': 'redeliver', 'k': f.randrange(n_pub)})
             if g.random() < 0.5:
@@ -442,6 +445,21 @@ def execute(trace, ctx=None):
                     messages.append((lib(lambda raw=raw: Bi(series(raw), stamp), 'Bi'), stamp, vals))
                     after_publication(stamp)
                 _check_store(store, model, k)
+            elif kind == 'bad_merge':
+                if store is None:
+                    continue
+                vals = [[i, v] for i, v in op['vals'] if i < n]
+                if not vals:
+                    continue
+                bad = Bi(series(vals), SimClock.now)
+                bad['updated'] = ['not-a-stamp'] * len(bad)
+                try:
+                    bi_merge(store, bad)
+                except Exception:
+                    res.fault('merge_raises')
+                else:
+                    res.stat('malformed-version-accepted')
+                # the store the caller holds is the one from before; everything that follows must behave as if nothing happened
             elif kind == 'redeliver':
                 if not messages:
                     continue
